@@ -18,15 +18,22 @@ package sqlx
 //       flush <k> | upd <k>      BulkInserter.Flush / UpdateOrDelete        obs: ok
 //       stmt <k> <s>    executor.Wait(); UpdateStmt(stmts[s])               obs: ok pre=… suf=… | err
 //       hand <k>        SetResultHandler(counting handler)                  obs: ok
+//       handp <k>       SetResultHandler(counting handler that PANICS with an error value after counting)
+//       unhand <k>      SetResultHandler(nil)
+//       mode <k> <m>    outcome of conn_k.Exec from now on: 0 = ok, 1 = returns an error, 2 = panics (after the harness
+//                       has recorded the statement); waits for the executor first                 obs: ok
+//       insx <k>        Insert with TWO arguments for the one placeholder: must be rejected, nothing is added   obs: err
 //       gate <k> | open <k>      block / unblock conn_k.Exec (open also joins the helper)      obs: ok
 //       insbg <k> <n>   helper goroutine inserts n rows; returns when it is done or its Add has handed a batch over
 //       wait <k>        executor.Wait()
 //                       obs: x=<hash>|<prefix>|<rows>|<suffix> … (one per Exec since the last wait, sorted by first
-//                            row; spaces are '_'; rows compressed a~b)  res=<result-handler calls> bad=<unparsable>
+//                            row; spaces are '_'; rows compressed a~b)  res=<result-handler calls>
+//                            rerr=<result-handler calls that were given a non-nil error> bad=<unparsable>
 // (`-` stands for an empty string)
 
 import (
 	"database/sql"
+	"errors"
 	"fmt"
 	"sort"
 	"strconv"
@@ -137,6 +144,9 @@ type c11sInst struct {
 	execs  []c11sExec
 	bad    int
 	res    int
+	rerr   int
+	mode   int // outcome of Exec: 0 ok, 1 error, 2 panic
+	conn   *mockedConn
 	gate   chan struct{} // non-nil: Exec blocks until it is closed
 	helper chan struct{} // non-nil: a helper goroutine is inserting
 	handed chan struct{} // the hook container signals a non-empty RemoveAll inside AddTask's critical section
@@ -199,7 +209,7 @@ func c11sGen(r *verifh.Rng) []verifh.Section {
 		}
 		for j := r.Range(4, 16); j > 0; j-- {
 			k := r.Intn(ninst)
-			switch x := r.Intn(12); {
+			switch x := r.Intn(14); {
 			case x < 5:
 				// aim at the threshold: one below, exactly, one above, far above, small
 				c := r.Pick(1, 2, 7, 999, 1000, 1001, 1999, 2000, 2500, maxBulkRows-pending[k]-1, maxBulkRows-pending[k], maxBulkRows-pending[k]+1)
@@ -217,8 +227,19 @@ func c11sGen(r *verifh.Rng) []verifh.Section {
 			case x < 9:
 				ops = append(ops, fmt.Sprintf("stmt %d %d", k, r.Pick(0, 1, 1, 2, 3, 3, 4, 6)))
 				pending[k] = 0
-			case x < 10:
-				ops = append(ops, fmt.Sprintf("hand %d", k))
+			case x < 10 || x >= 12:
+				switch r.Intn(6) {
+				case 0:
+					ops = append(ops, fmt.Sprintf("handp %d", k))
+				case 1:
+					ops = append(ops, fmt.Sprintf("unhand %d", k))
+				case 2, 3:
+					ops = append(ops, fmt.Sprintf("mode %d %d", k, r.Pick(0, 1, 1, 2, 2)))
+				case 4:
+					ops = append(ops, fmt.Sprintf("insx %d", k))
+				default:
+					ops = append(ops, fmt.Sprintf("hand %d", k))
+				}
 			case x < 11:
 				// a new inserter in the same slot (the old one is waited for first): state must not carry over
 				ops = append(ops, fmt.Sprintf("wait %d", k), fmt.Sprintf("new %d %d", k, r.Pick(0, 1, 3)))
@@ -291,6 +312,9 @@ func TestVerifC11Sqlx(t *testing.T) {
 						return
 					}
 					in.execs = append(in.execs, c11sExec{rows[0], fmt.Sprintf("x=%d|%s|%s|%s", c11sHash(query), c11sUS(pre), c11sRows(rows), c11sUS(suf))})
+					if in.mode == 2 {
+						panic(errors.New("c11 sqlx: Exec panics"))
+					}
 				}
 				bi, err := NewBulkInserter(conn, q)
 				if err != nil {
@@ -298,6 +322,7 @@ func TestVerifC11Sqlx(t *testing.T) {
 					return "err"
 				}
 				in.bi = bi
+				in.conn = conn
 				if hook {
 					bi.executor = executors.NewPeriodicalExecutor(flushInterval, &c11sHook{inner: bi.inserter, in: in})
 				}
@@ -382,14 +407,48 @@ func TestVerifC11Sqlx(t *testing.T) {
 			case "upd":
 				in.bi.UpdateOrDelete(func() {})
 				return "ok"
-			case "hand":
+			case "hand", "handp":
 				// batches already handed to the flusher read dbInserter.resultHandler when Exec returns: let them finish
 				in.bi.executor.Wait()
-				in.bi.SetResultHandler(func(_ sql.Result, _ error) {
+				pan := op[0] == "handp"
+				in.bi.SetResultHandler(func(_ sql.Result, err error) {
 					in.mu.Lock()
 					in.res++
+					if err != nil {
+						in.rerr++
+					}
 					in.mu.Unlock()
+					if pan {
+						panic(errors.New("c11 sqlx: the result handler panics"))
+					}
 				})
+				return "ok"
+			case "unhand":
+				in.bi.executor.Wait()
+				in.bi.SetResultHandler(nil)
+				return "ok"
+			case "mode":
+				if len(op) != 3 {
+					return "bad-op"
+				}
+				m := verifh.Atoi(op[2])
+				if m < 0 || m > 2 {
+					return "bad-op"
+				}
+				in.bi.executor.Wait()
+				in.mu.Lock()
+				in.mode = m
+				in.mu.Unlock()
+				in.conn.execErr = nil
+				if m == 1 {
+					in.conn.execErr = errors.New("c11 sqlx: Exec fails")
+				}
+				return "ok"
+			case "insx":
+				if err := in.bi.Insert(next, next); err != nil {
+					return "err"
+				}
+				next++
 				return "ok"
 			case "stmt":
 				q, ok := stmtOf(verifh.Atoi(op[2]))
@@ -412,7 +471,7 @@ func TestVerifC11Sqlx(t *testing.T) {
 					toks = append(toks, e.tok)
 				}
 				in.execs = nil
-				toks = append(toks, fmt.Sprintf("res=%d bad=%d", in.res, in.bad))
+				toks = append(toks, fmt.Sprintf("res=%d rerr=%d bad=%d", in.res, in.rerr, in.bad))
 				return strings.Join(toks, " ")
 			}
 			return "bad-op"
